@@ -15,7 +15,7 @@ import os
 import stat
 
 from vflib import core
-from vflib.core import Broken, finish, validate_trace
+from vflib.core import binding_selftest, Broken, finish, validate_trace
 
 KIND = {0: "ok", 1: "fail", 2: "signal", 3: "garbage"}
 TRACE_CFG = """SPECIFICATION TraceSpec
@@ -178,6 +178,14 @@ def run(ctx):
         v = validate_trace(ctx, "system/ProcessManagerTrace", TRACE_CFG % ("NoUAF" if check_uaf else ""), ev, name="pm")
         ntr += 1
         nev += len(ev)
+        if v["accepted"] and r.returncode == 0 and not getattr(ctx, "binding_selftests", None):
+            def other_verdict(e):
+                k = next((x for x in e if x["e"] == "Verdict"), None)
+                if k is None:
+                    return False
+                k["k"] = "ok" if k["k"] != "ok" else "fail"
+            binding_selftest(ctx, "system/ProcessManagerTrace", TRACE_CFG % ("NoUAF" if check_uaf else ""), ev, other_verdict,
+                             "a recorded execution whose reported exit status differs from the one of the child")
         if not samples:
             samples = ev[:18]
         if not v["accepted"] and not (r.returncode != 0 and v["violated"] is None and v["maxl"] > len(ev) - 30):
